@@ -19,8 +19,17 @@ CASE_TIMEOUT = {"quick": 300, "thorough": 600}
 NSAMPLES = 4
 
 
+PINNED = [
+    # finding: optimum reached at a point with n-1 of n bounds active, but the interpolation set degenerates there and the run ends
+    # with the linear-algebra error flag instead of success
+    dict(pinned="optimal-at-near-vertex-but-linalg-flag", cfg={"prob": {"kind": "linear", "n": 8, "m": 11, "pseed": 1937376546, "cond": 30.572856497908543, "scale": 0.8442111524804559, "bscale": 0.9399753623273948}, "lower": [-35.80146652703062, -6.771446995342565, 15.349864715149423, -6.483966351209119, -2.6264554803278912, -31.533081669663027, -32.596155866461814, 17.812088846338362], "upper": [0.45152289207919427, 29.484577185695485, 51.262983455713446, 29.80760553721384, 33.307714540517196, 4.23779218246238, 3.7884020364171, 53.993826022016286], "user_params": {}, "x0": [0.45152289207919427, -6.771446995342565, 15.349864715149423, -6.483966351209119, -2.6264554803278912, 4.23779218246238, 3.7884020364171, 17.812088846338362], "args": {"rhobeg": 1.7812088846338363, "npt": 9}}),
+]
+
+
 def cases(tier, seed):
-    return [dict(i=i, seed=seed) for i in range(N[tier])]
+    out = [dict(i=k, seed=seed, **p) for k, p in enumerate(PINNED)]
+    out += [dict(i=len(PINNED) + j, seed=seed) for j in range(N[tier])]
+    return out
 
 
 def setup():
@@ -140,8 +149,12 @@ def run_case(case):
         res["viol"].append(V("not-optimal", "obj - f* = %.3e > 1e-6(1+f*) = %.3e (f*=%.6g, n=%d, m=%d, cond=%.0f, flag=%d %s, nf=%d)" % (
             gap, tol, fstar, n, m, spec["cond"], s.flag, s.msg[:40], s.nf), gap=gap, fstar=fstar, obj=s.obj, x=s.x, xstar=xstar))
     if s.flag != s.EXIT_SUCCESS:
-        res["viol"].append(V("no-success-flag", "flag=%d (%s) on a linear problem; gap %.3e, nf=%d" % (s.flag, s.msg, gap, s.nf),
-                             flag=s.flag, message=s.msg, gap=gap))
+        nact_ret = int(np.sum((np.asarray(s.x) == lo) | (np.asarray(s.x) == hi)))
+        known = None
+        if s.flag == s.EXIT_LINALG_ERROR and gap <= tol and nact_ret >= n - 1 and n >= 2:
+            known = "optimal-at-near-vertex-but-linalg-flag"
+        res["viol"].append(V("no-success-flag", "flag=%d (%s) on a linear problem; gap %.3e, nf=%d, %d of %d bounds active at the returned point" % (
+            s.flag, s.msg, gap, s.nf, nact_ret, n), known=known, flag=s.flag, message=s.msg, gap=gap))
     st["worst_gap_over_tol_ppm"] = 0
     if nact > 0 or m != n:
         res["nontrivial"].append(oracles.cfg_hash(cfg))
